@@ -49,9 +49,38 @@ class C07(CleanBase):
             ci, upd = r.choice(G.ENVS)
             ops = [cfg] + calls + [G.op_end(t), G.op_setenv(ci, upd), {"op": "dumpfs"}, {"op": "clean", "sort": r.chance(1, 2), "count": 1}, {"op": "dumpfs"}]
             cases.append({"ci": False, "updvar": "unset", "colour": False, "ops": ops, "meta": {"mode": "pct"}})
+        # the snapshot directory is reached through a SYMBOLIC LINK (a module below a linked path, a linked __snapshots__):
+        # what the calls addressed must survive Clean and must not be listed, in every mode (no stale item exists here, so
+        # nothing at all may change or be listed). Oracle only: the model's file system has no links.
+        for i in range(max(6, n // 25)):
+            r = rng.fork()
+            link = r.choice([b"link", b"linked/pkg"])
+            ops = [{"op": "symlink", "path": hx(link), "content": hx(b"real_target")},
+                   G.op_newconfig(dir=link + b"/__snapshots__", fn=r.choice([None, b"suite"]), upd=True),
+                   G.op_match_snap(1, b"TestLinked", [b"first"]), G.op_match_snap(1, b"TestLinked", [b"second"]),
+                   G.op_match_doc("stand", 1, b"TestLinked", b"standalone value"), G.op_end(b"TestLinked")]
+            ci, upd = r.choice(G.ENVS)
+            ops += [G.op_setenv(ci, upd), {"op": "dumpfs"}, {"op": "clean", "sort": r.chance(1, 2), "count": 1}, {"op": "dumpfs"}]
+            cases.append({"ci": False, "updvar": "unset", "colour": False, "ops": ops, "meta": {"mode": "symlink", "oracle_only": True}})
         return cases
 
     def oracle(self, case, ops, results):
+        if case.get("meta", {}).get("mode") == "symlink":
+            fss_ = [r for r in results if r[0] == "fs"]
+            cl_ = [r for r in results if r[0] == "clean"]
+            obs_ = [r for r in results if r[0] == "obs" and r[2]["outcome"] != "nocall"]
+            if len(fss_) != 2 or not cl_ or len(obs_) < 3 or any(o[2]["outcome"] != "added" for o in obs_[:3]):
+                return self.skip("guard")
+            f = []
+            if len([k for k in fss_[0][2] if b".snap" in unhx(k)]) != 2:
+                return self.skip("guard")
+            if fss_[0][2] != fss_[1][2]:
+                f.append({"msg": "snapshot directory reached through a symbolic link: Clean changed files that this process addressed: before %s after %s" % (
+                    sorted(unhx(k) for k in fss_[0][2]), sorted(unhx(k) for k in fss_[1][2]))})
+            if cl_[0][2].get("ofiles", "~") != "~" or cl_[0][2].get("otests", "~") != "~":
+                f.append({"msg": "snapshot directory reached through a symbolic link: Clean lists addressed items as obsolete: files %s tests %s" % (
+                    cl_[0][2].get("ofiles"), cl_[0][2].get("otests"))})
+            return f
         fss = [r for r in results if r[0] == "fs"]
         cl = [r for r in results if r[0] == "clean"]
         obs = [r for r in results if r[0] == "obs"]
